@@ -2,10 +2,14 @@
 C08 — Same seed, same run: independent of evaluator, threads, scheduling and cloning.
 Property theorems only; helper lemmas are in `Proofs/C08.lean` (and `Proofs/C15.lean` for the export).
 
-What is PROVED here is schedule-independence of evaluation and of seed derivation ON THE MODEL. The
-property itself (rayon's real scheduler, cloned trait objects, reuse of a configuration object,
-process boundaries) is decided by exploration: digests of complete final states (see checklib/c08.py).
-There is no theorem for the cloning clause: the model has no mutable component state to copy.
+What is PROVED here is schedule-independence of evaluation and of seed derivation ON THE MODEL, that
+`Random` is a transparent wrapper of its backend (seed passed through unchanged, all four RngCore
+methods delegated, descendants at any depth), and which generator `optimize_with` / a `par_experiment`
+job draws from. The generator theorems are tied to the code (sites stream, seedmap, children, exp,
+exp-user). The run-level property itself (rayon's real scheduler, cloned trait objects, reuse of a
+configuration object, process boundaries) is decided by exploration: digests of complete final states
+(see checklib/c08.py). There is no theorem for the cloning clause: the model has no mutable component
+state to copy.
 -/
 import MahfModel.Proofs.C08
 import MahfModel.Proofs.C15
@@ -48,27 +52,30 @@ theorem user_generator_decides_run {R : Type} (userInit : Reg → Except Unit Re
   · intro s hs hn dflt; simp [optimizeWith, hs, hn]
   · intro e he dflt; simp [optimizeWith, he]
 
-/-- Child generators are a deterministic function of the parent's stream and position: the i-th child
-is constructed from the parent's i-th next word, and deriving `k` children advances the parent by
-exactly `k` words. -/
-theorem children_deterministic (ctor : Nat → Nat → Nat) (k : Nat) (r : Rng) :
-    (children ctor k r).1 = (List.range k).map (fun i => mkRng ctor (r.stream (r.pos + i))) ∧
-    (children ctor k r).2 = { r with pos := r.pos + k } := by
-  obtain ⟨h1, h2⟩ := children_eq ctor k r
+/-- Child generators are a deterministic function of the parent's stream and position — for EVERY way
+`d` of deriving a child's seed from the word drawn (the code uses the word itself; the tie reads the
+seed off the child instead of demanding that): the i-th child is the generator constructed from `d` of
+the parent's i-th next word, and deriving `k` children advances the parent by exactly `k` words. -/
+theorem children_deterministic (ctor : Nat → Nat → Nat) (d : Nat → Nat) (k : Nat) (r : Rng) :
+    (children ctor d k r).1 = (List.range k).map (fun i => mkRng ctor (d (r.stream (r.pos + i)))) ∧
+    (children ctor d k r).2 = { r with pos := r.pos + k } := by
+  obtain ⟨h1, h2⟩ := children_eq ctor d k r
   refine ⟨?_, h2⟩
   rw [h1, childSeeds_eq, List.map_map]; rfl
 
-/-- Different seeds, different streams — RELATIVE to the assumption that the constructor (ChaCha12
-seeding) maps different seeds to different streams: then children derived from pairwise different
-parent words have pairwise different streams. -/
+/-- Different seeds, different streams — RELATIVE to the assumptions that the constructor (ChaCha12
+seeding) maps different seeds to different streams and that the seed derivation `d` is injective (the
+identity in the code; a bijective scrambler would do as well): then children derived from pairwise
+different parent words have pairwise different streams. -/
 theorem children_pairwise_distinct (ctor : Nat → Nat → Nat) (hinj : ∀ a b, ctor a = ctor b → a = b)
+    (d : Nat → Nat) (hd : ∀ a b, d a = d b → a = b)
     (k : Nat) (r : Rng) (hw : ((List.range k).map (fun i => r.stream (r.pos + i))).Nodup) :
-    (((children ctor k r).1).map (·.stream)).Nodup := by
-  rw [(children_deterministic ctor k r).1, List.map_map]
-  have : ((fun c : Rng => c.stream) ∘ fun i => mkRng ctor (r.stream (r.pos + i)))
-      = (fun w => ctor w) ∘ fun i => r.stream (r.pos + i) := rfl
+    (((children ctor d k r).1).map (·.stream)).Nodup := by
+  rw [(children_deterministic ctor d k r).1, List.map_map]
+  have : ((fun c : Rng => c.stream) ∘ fun i => mkRng ctor (d (r.stream (r.pos + i))))
+      = (fun w => ctor (d w)) ∘ fun i => r.stream (r.pos + i) := rfl
   rw [this, ← List.map_map]
-  exact List.Pairwise.map _ (fun a b h e => h (hinj a b e)) hw
+  exact List.Pairwise.map _ (fun a b h e => h (hd a b (hinj _ _ e))) hw
 
 /-- `par_experiment`: the file of (problem p, run r) holds the single run of problem p seeded with r —
 for every number of runs, every number of problems and every completion order of the jobs. -/
@@ -85,6 +92,70 @@ theorem export_order_independent {N V : Type} [DecidableEq N] (names : List N)
     ∃ s', Log.decodeStep names m' = some s' ∧ s.Perm s' ∧ Log.sameMap s s' := by
   obtain ⟨s', h1, h2⟩ := Log.decodeStep_perm names hp s hd
   exact ⟨s', h1, h2, Log.sameMap_of_perm h2 hn⟩
+
+/-- `Random` is a transparent wrapper of its backend: whatever mix of `next_u64`, `next_u32`,
+`fill_bytes`, `try_fill_bytes` is drawn from `Random::with_rng::<B>(seed)`, the answers are those of the
+backend seeded with exactly `seed` — the seed `config()` reports — and of nothing else. (The tie checks
+this against the code for the counter backend, whose stream the model computes, and against rand's own
+`seed_from_u64` for ChaCha8/12/20 and StdRng.) -/
+theorem random_is_backend (B : Backend) (seed : Nat) (script : List Draw) :
+    (Random.withRng B seed).run script = B.run script (B.seedFrom seed) ∧
+    (Random.withRng B seed).cfgSeed = seed :=
+  ⟨Random.run_eq script _, rfl⟩
+
+/-- Different seeds, different streams — what follows from the above GIVEN that the backend's own
+seeding is injective on 64-bit seeds (`hinj`; an assumption about rand_chacha for the default backend,
+a theorem for the counter backend, see `ctr_different_seeds`): two generators constructed from
+different user seeds differ in some word. -/
+theorem different_seeds_different_streams (B : Backend)
+    (hinj : ∀ a b, a < 2 ^ 64 → b < 2 ^ 64 →
+      (∀ n, B.nthWord n (B.seedFrom a) = B.nthWord n (B.seedFrom b)) → a = b)
+    (a b : Nat) (ha : a < 2 ^ 64) (hb : b < 2 ^ 64) (hab : a ≠ b) :
+    ∃ n, B.nthWord n (Random.withRng B a).inner ≠ B.nthWord n (Random.withRng B b).inner := by
+  apply Classical.byContradiction
+  intro hno
+  apply hab
+  apply hinj a b ha hb
+  intro n
+  apply Classical.byContradiction
+  intro hne
+  exact hno ⟨n, hne⟩
+
+/-- For the counter backend no assumption is needed: the first word of `with_rng::<Ctr>(s)` is `s`. -/
+theorem ctr_different_seeds (a b : Nat) (ha : a < 2 ^ 64) (hb : b < 2 ^ 64) (hab : a ≠ b) :
+    (Random.withRng ctr a).run [.u64] = [[a]] ∧ (Random.withRng ctr b).run [.u64] = [[b]] ∧
+    (Random.withRng ctr a).run [.u64] ≠ (Random.withRng ctr b).run [.u64] := by
+  have h1 : (Random.withRng ctr a).run [.u64] = [[a]] := by
+    simp [Random.run, Random.draw, Backend.draw, Random.withRng, ctr, Nat.mod_eq_of_lt ha]
+  have h2 : (Random.withRng ctr b).run [.u64] = [[b]] := by
+    simp [Random.run, Random.draw, Backend.draw, Random.withRng, ctr, Nat.mod_eq_of_lt hb]
+  refine ⟨h1, h2, ?_⟩
+  rw [h1, h2]
+  simpa using hab
+
+/-- Descendants at any nesting depth, for every seed derivation `d`: the generator reached from
+`with_rng::<B>(seed)` by taking child number i₁, of that one child number i₂, … is the PRISTINE generator
+`with_rng::<B>(s')` (same backend) whose seed `s'` is computed from `seed` and the path on the backend
+alone; `s'` is the last seed reported on the way down (what the tie uses as witness). -/
+theorem descendant_deterministic (B : Backend) (d : Nat → Nat) (seed : Nat) (path : List Nat) :
+    (Random.withRng B seed).descend d path = Random.withRng B (B.descendSeed d path seed) ∧
+    ((Random.withRng B seed).descendSeeds d path).getLastD seed = B.descendSeed d path seed :=
+  ⟨Random.descend_withRng d path seed, Random.descendSeeds_getLastD d path seed⟩
+
+/-- `par_experiment`, the user's `setup`: the job's initialiser is `insert(Random::new(run)); setup(state)`,
+so a generator that `setup` supplies is the one the run draws from — whatever the run number and the
+entropy-seeded default are; if `setup` leaves the generator alone the run draws from `Random::new(run)`;
+a failing `setup` means no run. -/
+theorem experiment_user_generator_kept {G : Type} (newG : Nat → G) (setup : Option G → Except Unit (Option G))
+    (dflt : G) (run : Nat) :
+    (∀ g, setup (some (newG run)) = .ok (some g) → jobGenerator newG setup dflt run = .ok g) ∧
+    ((∀ s, setup s = .ok s) → jobGenerator newG setup dflt run = .ok (newG run)) ∧
+    (∀ e, setup (some (newG run)) = .error e → jobGenerator newG setup dflt run = .error e) := by
+  rw [jobGenerator_eq]
+  refine ⟨?_, ?_, ?_⟩
+  · intro g h; rw [h]
+  · intro h; rw [h]
+  · intro e h; rw [h]
 
 /-! Non-vacuity -/
 example : ([2, 0, 3, 1] : List Nat).Perm (List.range ([⟨5, none⟩, ⟨6, some 1⟩, ⟨7, none⟩, ⟨8, none⟩] : List (Ind Nat Nat)).length) := by
@@ -107,8 +178,27 @@ example : (runSeq (fun x => x + 1) (fun i => 5 * i + 1)
 example : ∀ a b : Nat, (fun seed i => seed * (i + 1) + i) a = (fun seed i => seed * (i + 1) + i) b → a = b := by
   intro a b h; simpa using congrFun h 0
 example : ((List.range 3).map (fun i => (⟨fun i => 10 * i + 1, 2⟩ : Rng).stream (2 + i))).Nodup := by decide
-example : (children (fun seed i => seed + i) 3 ⟨fun i => 10 * i, 2⟩).1.map (fun c => c.stream 1) = [21, 31, 41] := by decide
+example : (children (fun seed i => seed + i) id 3 ⟨fun i => 10 * i, 2⟩).1.map (fun c => c.stream 1) = [21, 31, 41] := by decide
+/-- an injective derivation other than the identity -/
+example : (children (fun seed i => seed + i) (· * 2 + 1) 3 ⟨fun i => 10 * i, 2⟩).1.map (fun c => c.stream 1) = [42, 62, 82] := by decide
+example : ∀ a b : Nat, (fun x => x * 2 + 1) a = (fun x => x * 2 + 1) b → a = b := by intro a b h; simp at h; omega
 example : ([3, 0, 5, 1, 4, 2] : List Nat).Perm (List.range (jobs 3 2).length) := by decide
 example : fileOf (experiment (fun p seed => 100 * p + seed) 3 2 [3, 0, 5, 1, 4, 2]) 1 2 = some 102 := by decide
+
+/-- the counter backend satisfies the injectivity hypothesis -/
+example : ∀ a b, a < 2 ^ 64 → b < 2 ^ 64 →
+    (∀ n, ctr.nthWord n (ctr.seedFrom a) = ctr.nthWord n (ctr.seedFrom b)) → a = b := by
+  intro a b ha hb h
+  have := h 0
+  rwa [ctr_first_word a ha, ctr_first_word b hb] at this
+/-- grandchild 1 of child 2 of child 0 of seed 2^64 - 2 (wraps around), then a mixed draw script -/
+example : ctr.descendSeed id [0, 2, 1] (2 ^ 64 - 2) = 1 := by decide
+example : (Random.withRng ctr (2 ^ 64 - 2)).descendSeeds id [0, 2, 1] = [2 ^ 64 - 2, 0, 1] := by decide
+example : ((Random.withRng ctr (2 ^ 64 - 2)).descend id [0, 2, 1]).run [.u64, .u32, .fill 3, .tryFill 9, .u64]
+    = [[1], [2], [3, 0, 0], [4, 0, 0, 0, 0, 0, 0, 0, 5], [6]] := by decide
+/-- a `setup` that supplies a ChaCha8 generator with seed 7; one that leaves the generator alone -/
+example : jobGenerator (fun run => (⟨0, run⟩ : GenId)) (setupSupply ⟨1, 7⟩) ⟨99, 0⟩ 3 = .ok ⟨1, 7⟩ := by decide
+example : jobGenerator (fun run => (⟨0, run⟩ : GenId)) setupKeep ⟨99, 0⟩ 3 = .ok ⟨0, 3⟩ := by decide
+example : ∀ s, setupKeep s = .ok s := fun _ => rfl
 
 end MahfModel.Props.C08
